@@ -265,7 +265,7 @@ var translationAssumptions = []string{
 	"the VC generator gvc itself (own code, no independent checker): /verif/gvc",
 	"integers are mathematical (no wrap-around); unsigned values carry a >= 0 range fact",
 	"a string is a finite sequence of bytes; slices have value semantics (no aliasing through append); a nil slice and an empty slice are the same value (what an encoder makes of the difference - null vs [] - is not visible)",
-	"goroutines are verified one at a time as sequential procedures (channels carry protocols, select is a nondeterministic choice, go checks the callee's precondition and frame): interleavings, blocking, cancellation instants, leaks and races are NOT modelled; mutexes and contexts have no effect in the model; a WaitGroup is three counters under a sequential discipline (Add announces, a go statement of a body that 'joins' it uses an announcement up, such a body calls Done exactly once, Wait requires that every announcement was used) and close(ch) sets a flag that a 'closes' clause demands at every return of the producer - necessary conditions for not hanging and for Done/send-after-close not panicking, not a proof of termination; errgroup has a trusted sequential model (Go runs its task once, Wait reports whether a task failed)",
+	"goroutines are verified one at a time as sequential procedures (channels carry protocols, select is a nondeterministic choice, go checks the callee's precondition and frame): interleavings, blocking, cancellation instants, leaks and races are NOT modelled; contexts have no effect in the model beyond the cancellation bookkeeping; a mutex is a ghost flag of the goroutine under verification (Unlock requires it, Lock sets it, locking functions state that they unlocked on return: no blocking, no other goroutine); a WaitGroup is three counters under a sequential discipline (Add announces, a go statement of a body that 'joins' it uses an announcement up, such a body calls Done exactly once, Wait requires that every announcement was used) and close(ch) sets a flag that a 'closes' clause demands at every return of the producer - necessary conditions for not hanging and for Done/send-after-close not panicking, not a proof of termination; errgroup has a trusted sequential model (Go runs its task once, Wait reports whether a task failed)",
 	"facts a goroutine relies on between two of its steps are not invalidated by other goroutines (ownership of a tree travels with the channel message); shared state is covered only by the rely clauses",
 	"a closure's precondition is checked where the closure is created and assumed when it runs; a closure runs at most once (true of every closure in the repository: each is consumed by one iter.Pull2, range or go statement)",
 	"coroutines (iter.Pull2): nothing about the heap survives a resume of the producer except what the stream contract says; heap separation between trees already yielded and the tree under construction is not modelled",
